@@ -373,6 +373,85 @@ pub fn run(args: &Args) -> ! {
             total.disc.extend(a.disc);
         },
     );
+    // ---- the command line's flag mapping (auto / -E label / -E none): the
+    // real binary on one text per BOM / label combination, memory-mapped and
+    // not, against `rg -E none` on the expected transcoding ------------------
+    {
+        use std::process::Command;
+        let rg = build_rg();
+        let mut cli_runs = 0u64;
+        for (ei, e) in encs.iter().enumerate() {
+            let mut raw = e.bom.to_vec();
+            for u in e.units.iter().chain(e.units.iter().take(2)) {
+                raw.extend(u);
+            }
+            let file = scratch.path.join(format!("cli{}.txt", ei));
+            let reff = scratch.path.join(format!("cli{}.ref", ei));
+            std::fs::write(&file, &raw).unwrap_or_else(|_| machinery_error("scratch"));
+            let run = |path: &std::path::Path, enc_args: &[&str], mm: &str, pat: &[&str]| -> (Vec<u8>, i32) {
+                let out = Command::new(&rg)
+                    .current_dir(&scratch.path)
+                    .args(["--no-config", "--color", "never", "-n", "--no-heading", "-a", mm])
+                    .args(enc_args)
+                    .args(pat)
+                    .arg(path.file_name().unwrap())
+                    .output()
+                    .unwrap_or_else(|_| machinery_error("cannot run rg"));
+                (out.stdout, out.status.code().unwrap_or(-1))
+            };
+            let enc_args: Vec<&str> = if !e.sniff {
+                vec!["-E", "none"]
+            } else if let Some(l) = e.label {
+                vec!["-E", l]
+            } else {
+                vec![]
+            };
+            for pat in [vec!["a"], vec!["-U", "a\\n?"], vec!["-c", "-v", "zzz"]] {
+                let pat: Vec<String> = pat.iter().map(|p| p.replace("\\\\", "\\")).collect();
+                let pat: Vec<&str> = pat.iter().map(|p| p.as_str()).collect();
+                for mm in ["--mmap", "--no-mmap"] {
+                    let got = run(&file, &enc_args, mm, &pat);
+                    cli_runs += 1;
+                    let mut ok = false;
+                    let mut by: Option<Vec<&'static str>> = None;
+                    for (cand, used) in counterfactuals(&raw, e) {
+                        std::fs::write(&reff, &cand).unwrap_or_else(|_| machinery_error("scratch"));
+                        let want = run(&reff, &["-E", "none"], "--no-mmap", &pat);
+                        // (the file name differs: compare the records, not the names — none is printed for a single file)
+                        if want == got {
+                            if used.is_empty() {
+                                ok = true;
+                            } else {
+                                by = Some(used);
+                            }
+                            break;
+                        }
+                    }
+                    if ok {
+                        continue;
+                    }
+                    match by {
+                        Some(used) => {
+                            for f in used {
+                                let ent = total.known.entry(f).or_insert((0, format!("command line | {} | {:?} {}", e.name, pat, mm)));
+                                ent.0 += 1;
+                            }
+                        }
+                        None => {
+                            std::fs::write(&reff, expected_utf8(&raw, e)).unwrap_or_else(|_| machinery_error("scratch"));
+                            let want = run(&reff, &["-E", "none"], "--no-mmap", &pat);
+                            total.disc.push((
+                                format!("command line | {} | {:?} {}", e.name, pat, mm),
+                                json!({"kind":"command-line-flag-mapping","encoding":e.name,"args":enc_args,"pattern":pat,"mmap":mm,"input":esc(&raw),
+                                       "stdout":esc(&got.0),"status":got.1,"expected_stdout":esc(&want.0),"expected_status":want.1}),
+                            ));
+                        }
+                    }
+                }
+            }
+        }
+        ev.set("command_line_runs", cli_runs);
+    }
     for (k, v) in total.disc.iter() {
         verdict.discrepancy(None, k, v.clone());
     }
@@ -395,7 +474,7 @@ pub fn run(args: &Args) -> ! {
     ev.set(
         "rule",
         format!(
-            "texts: every sequence of <= {} units per source encoding (UTF-16: a, \\n, é, €, a surrogate pair, a lone high and a lone low surrogate, optional trailing odd byte; UTF-8: a, \\n, é, €, 😀, a lone continuation byte, a truncated lead, 0xFF; latin1 and shift_jis analogues) under {} BOM/label combinations (BOM overriding a conflicting label, --encoding none with a mark); each text also placed behind padding so that it starts at source offset 8192-d for d in -6..6. Strategies: search_slice, search_path with and without mmap, search_reader with roll-buffer capacity 1/3/8 x every composition of the input length as read sizes (inputs up to 8 bytes; fixed fragmentations otherwise, including splits at the 8 KiB boundary); four patterns (one multi-line). Reference: encoding_rs applied in the harness (mark sniffed, mark overrides label, malformed -> U+FFFD, mark removed; UTF-8 by mark passed through; sniffing off: raw bytes) then search_slice without transcoding; the full Sink event streams must be equal.",
+            "texts: every sequence of <= {} units per source encoding (UTF-16: a, \\n, é, €, a surrogate pair, a lone high and a lone low surrogate, optional trailing odd byte; UTF-8: a, \\n, é, €, 😀, a lone continuation byte, a truncated lead, 0xFF; latin1 and shift_jis analogues) under {} BOM/label combinations (BOM overriding a conflicting label, --encoding none with a mark); each text also placed behind padding so that it starts at source offset 8192-d for d in -6..6. Strategies: search_slice, search_path with and without mmap, search_reader with roll-buffer capacity 1/3/8 x every composition of the input length as read sizes (inputs up to 8 bytes; fixed fragmentations otherwise, including splits at the 8 KiB boundary); four patterns (one multi-line). Reference: encoding_rs applied in the harness (mark sniffed, mark overrides label, malformed -> U+FFFD, mark removed; UTF-8 by mark passed through; sniffing off: raw bytes) then search_slice without transcoding; the full Sink event streams must be equal. Command-line layer: the real binary with no -E / -E label / -E none on one text per BOM / label combination, --mmap and --no-mmap, three searches (plain, -U, -c -v), against rg -E none on the expected transcoding.",
             maxunits, encs.len()
         ),
     );
@@ -408,6 +487,25 @@ pub fn run(args: &Args) -> ! {
 fn replay(path: &str) -> ! {
     let text = std::fs::read_to_string(path).unwrap_or_else(|_| machinery_error("cannot read replay"));
     let v: serde_json::Value = serde_json::from_str(&text).unwrap_or_else(|_| machinery_error("bad replay"));
+    if v["kind"] == "command-line-flag-mapping" {
+        // the recorded command line on the recorded input, against the recorded expectation
+        let scratch = Scratch::new("c17r");
+        let rg = build_rg();
+        let raw = unesc(v["input"].as_str().unwrap_or(""));
+        std::fs::write(scratch.path.join("cli.txt"), &raw).unwrap_or_else(|_| machinery_error("scratch"));
+        let strs = |x: &serde_json::Value| -> Vec<String> { x.as_array().map(|a| a.iter().filter_map(|s| s.as_str().map(|s| s.to_string())).collect()).unwrap_or_default() };
+        let out = std::process::Command::new(&rg)
+            .current_dir(&scratch.path)
+            .args(["--no-config", "--color", "never", "-n", "--no-heading", "-a", v["mmap"].as_str().unwrap_or("--no-mmap")])
+            .args(strs(&v["args"]))
+            .args(strs(&v["pattern"]))
+            .arg("cli.txt")
+            .output()
+            .unwrap_or_else(|_| machinery_error("cannot run rg"));
+        let same = esc(&out.stdout) == v["expected_stdout"].as_str().unwrap_or("") && out.status.code().map(|c| c as i64) == v["expected_status"].as_i64();
+        println!("rg {:?} {:?} on {}\nstdout   {}\nexpected {}", strs(&v["args"]), strs(&v["pattern"]), esc(&raw), esc(&out.stdout), v["expected_stdout"].as_str().unwrap_or(""));
+        std::process::exit(if same { 0 } else { 1 })
+    }
     let encs = encodings();
     let e = &encs[v["enc_index"].as_u64().unwrap_or(0) as usize];
     let mut body = vec![];
